@@ -1,1 +1,655 @@
 //! Verification hooks: whole-collector harness (cargo feature `mmtk_verif`; add-only wrappers).
+//!
+//! Three parts:
+//! 1. a lock-free, append-only **event log** ([`ev`], [`enable`], [`drain`]),
+//! 2. seeded **yield points** ([`yp`], [`arm_yield`]),
+//! 3. **accessors** to crate-private state used by the `hx_gc` interpreter (bottom of file).
+//!
+//! Logging discipline (the monitors rely only on this): *producer* events (push, open,
+//! set-request, store) are logged BEFORE the operation, *consumer* events (pop, poll success,
+//! wake) AFTER it; events inside the worker-monitor mutex are logged while holding it.
+
+use std::cell::Cell;
+use std::sync::atomic::{AtomicBool, AtomicPtr, AtomicU64, AtomicUsize, Ordering};
+use std::sync::Mutex;
+
+// ---------------------------------------------------------------------------------------------
+// Event kinds
+// ---------------------------------------------------------------------------------------------
+
+/// Event kinds. The numeric value is what is logged; [`KIND_NAMES`] gives the printable name.
+/// Conventions for the operands: `pid` = stable packet id (address of the boxed packet; ZST
+/// packets all share one small address and are told apart by their type hash); `tag` =
+/// `(type_hash << 8) | stage` where `stage` is the `WorkBucketStage` index (0xff = unknown) and
+/// `type_hash` the 32-bit FNV-1a hash of `GCWork::get_type_name()` (see [`packet_type_names`]).
+#[repr(u32)]
+#[derive(Copy, Clone, Debug, PartialEq, Eq)]
+pub enum Kind {
+    /// unused
+    None = 0,
+    // ---- GC request (GCRequester / GCTrigger) ----
+    /// `GCTrigger::request` entered (`src/util/heap/gc_trigger.rs`; there is no separate
+    /// `GCRequester` any more). a = 1 if the request flag was already set (elided), else 0.
+    /// Logged BEFORE the flag is set / the monitor is asked.
+    GcRequest = 1,
+    /// `GCTrigger::clear_request` (before the flag is cleared).
+    GcClearRequest = 2,
+    // ---- WorkerMonitor ----
+    /// `make_request`, under the mutex, before `set_request`. a = goal (0 Gc, 1 Shutdown, 2 StopForFork).
+    MonMakeRequest = 3,
+    /// `make_request`, under the mutex, after `set_request`. a = goal, b = newly_requested (0/1);
+    /// if 1 a `notify_one` follows.
+    MonRequested = 4,
+    /// `park_and_wait` after `inc_parked_workers`, under the mutex. a = ordinal, b = all_parked (0/1).
+    MonPark = 5,
+    /// last-parked decision, under the mutex, after `on_last_parked` returned.
+    /// a = ordinal, b = 0 ParkSelf | 1 WakeSelf | 2 WakeAll (logged before `notify_all` for WakeAll).
+    MonLastParked = 6,
+    /// about to `wait` on the condvar (under the mutex). a = ordinal.
+    MonWait = 7,
+    /// returned from `wait` (mutex re-acquired). a = ordinal.
+    MonWake = 8,
+    /// after `dec_parked_workers` (under the mutex). a = ordinal.
+    MonUnpark = 9,
+    /// `park_and_wait` returns `Err(WorkerShouldExit)` (logged before the `return`, under the
+    /// mutex). a = ordinal, b = goal (1 Shutdown, 2 StopForFork).
+    MonExit = 10,
+    /// `on_all_workers_exited`, under the mutex, before `on_current_goal_completed` (a
+    /// `GoalCompleted` follows). a = current goal (1 Shutdown, 2 StopForFork, 0xff none).
+    MonAllExited = 11,
+    /// `notify_work_available`. a = all (0/1). Logged before the notify.
+    MonNotify = 12,
+    // ---- buckets ----
+    /// `BucketQueue::push`, before the push. a = pid, b = tag.
+    BqPush = 13,
+    /// `BucketQueue::push_all`, before the pushes. a = number of packets, b = stage (each packet
+    /// is additionally logged as `BqPush`).
+    BqPushAll = 14,
+    /// `WorkBucket::open`, before the store. a = stage.
+    BucketOpen = 15,
+    /// `WorkBucket::close`, before the store. a = stage.
+    BucketClose = 16,
+    /// `WorkBucket::set_enabled`, before the store. a = stage, b = enabled.
+    BucketSetEnabled = 17,
+    /// `WorkBucket::set_sentinel`, under the sentinel mutex, before the store. a = pid, b = tag.
+    BucketSetSentinel = 18,
+    /// `WorkBucket::maybe_schedule_sentinel`, after `take()`. a = stage, b = 1 if a sentinel was
+    /// taken (it is then pushed: a `BqPush` follows).
+    BucketSchedSentinel = 19,
+    /// `WorkBucket::poll` returned `Steal::Success`. a = pid, b = tag. (after)
+    BucketPollOk = 20,
+    // ---- worker ----
+    /// `GCWorker::add_work[_prioritized]` pushes to the local buffer (before). a = pid (the
+    /// verification build boxes the packet first, in an early block that replaces the original
+    /// push line), b = tag (stage = the `bucket` argument).
+    WorkerLocalPush = 21,
+    /// `GCWorker::poll` popped from the local buffer (after). a = pid, b = tag (stage 0xff).
+    WorkerLocalPop = 22,
+    /// designated work pushed (before; `Prepare::do_work` / `Release::do_work` in
+    /// `scheduler/gc_work.rs`). a = pid (the two designated packet types are ZSTs, so this is the
+    /// shared dangling address), b = (target ordinal << 40) | tag (stage 0xff).
+    DesignatedPush = 23,
+    /// designated work popped by its worker (after; `GCWorker::poll` and
+    /// `GCWorkScheduler::poll_schedulable_work_once`). a = pid, b = tag (stage 0xff).
+    DesignatedPop = 24,
+    /// a worker stole a packet from another worker's local deque in
+    /// `poll_schedulable_work_once` (after). a = pid, b = (victim ordinal << 40) | tag (stage 0xff).
+    WorkerSteal = 25,
+    /// just before `do_work_with_stat`. a = pid, b = tag (stage 0xff).
+    PacketStart = 26,
+    /// just after `do_work_with_stat`. a = pid, b = tag (both computed before the call; same
+    /// values as the matching `PacketStart`).
+    PacketEnd = 27,
+    /// `GCWorker::run` entered its loop. a = ordinal.
+    WorkerRun = 28,
+    /// `GCWorker::run` left its loop (before surrender). a = ordinal.
+    WorkerLeave = 29,
+    // ---- scheduler ----
+    /// `on_gc_finished` begin. a = ordinal of the (last parked) worker. Under the monitor mutex.
+    GcFinishedBegin = 30,
+    /// `on_gc_finished` just before `resume_mutators` (after `set_gc_status(NotInGC)`). a = ordinal.
+    GcBeforeResume = 31,
+    /// `on_gc_finished` end (after `resume_mutators` returned). a = ordinal,
+    /// b = concurrent_work_scheduled (0/1).
+    GcFinishedEnd = 32,
+    /// `surrender_gc_worker` (scheduler level, before). a = ordinal.
+    Surrender = 33,
+    /// `surrender_gc_worker` result (after). a = ordinal, b = 1 if all workers surrendered.
+    SurrenderDone = 34,
+    /// `WorkerGroup::respawn` (before spawning). a = number of workers.
+    Respawn = 35,
+    /// `WorkerGroup::initial_spawn` (before spawning). a = number of workers.
+    InitialSpawn = 36,
+    /// `on_last_parked` entered (under the monitor mutex). a = current goal (0 Gc, 1 Shutdown,
+    /// 2 StopForFork, 0xff none), b = ordinal.
+    LastParkedEnter = 37,
+    /// `respond_to_requests` picked a goal (after `poll_next_goal`, under the monitor mutex).
+    /// a = goal, b = ordinal.
+    GoalStarted = 38,
+    /// current goal about to be completed (before `on_current_goal_completed`, under the monitor
+    /// mutex; in `on_last_parked` for Gc and in `on_all_workers_exited` for the exit goals). a = goal.
+    GoalCompleted = 39,
+    /// `notify_mutators_paused` entered (before `clear_request` and before opening the first STW
+    /// bucket; a `GcClearRequest`, a `BucketOpen` and a `MonNotify` follow).
+    MutatorsPaused = 40,
+    /// `schedule_sentinels` result (before it returns). a = 1 if any scheduled.
+    SchedSentinels = 41,
+    /// `update_buckets` result (before it returns). a = returned value (1 if a bucket was opened
+    /// and new packets are available), b = 1 if any bucket was opened.
+    UpdateBuckets = 42,
+    /// `stop_gc_threads_for_forking` / `shutdown_gc_threads` entered. a = goal.
+    StopRequest = 43,
+    /// `WorkBucket::poll` returned `Steal::Success` (logged right after `BucketPollOk`, by the same
+    /// thread). a = stage, b = number of *additional* packets `steal_batch_and_pop` moved from the
+    /// bucket into the polling worker's local deque (difference of `worker.len()` around the call;
+    /// a lower bound if another worker steals from that deque concurrently). Those packets leave
+    /// the bucket without a `BucketPollOk` and later show up as `WorkerLocalPop` / `WorkerSteal`.
+    BucketPollBatch = 44,
+    // ---- page resources ----
+    // The page resources do not know the name of their space, so all of these are logged by the
+    // caller at space / policy level (`policy/space.rs` and the policies), keyed by
+    // `space_tag(Space::get_name(), pages)`.
+    /// `pr.get_new_pages` succeeded (after; `Space::get_new_pages_and_initialize`, holding the
+    /// space's `acquire_lock`). a = (space name hash << 32) | pages actually allocated
+    /// (`res.pages`), b = start address. Always directly preceded by a `PrCommit`.
+    PrGetNewPages = 50,
+    /// `pr.get_new_pages` failed (after; same place). a = (space name hash << 32) | pages
+    /// required, b = pages reserved. A `PrClearRequest` follows.
+    PrGetNewPagesFail = 51,
+    /// `FreeListPageResource::release_pages` (before the call; `LargeObjectSpace::
+    /// release_multiple_pages` and `sweep_large_pages`). a = (space name hash << 32) | 0 (the
+    /// number of pages is only known inside the page resource; it is the size of the allocation
+    /// that returned `b`), b = first address.
+    PrReleasePages = 52,
+    /// `BlockPageResource::release_block` (before the call; `ImmixSpace::release_block`,
+    /// `MarkSweepSpace::release_block`). a = (space name hash << 32) | pages per block,
+    /// b = block start.
+    PrReleaseBlock = 53,
+    /// `MonotonePageResource::reset` (before the call; `CopySpace::release`).
+    /// a = (space name hash << 32) | reserved pages before the reset.
+    PrReset = 54,
+    /// `pr.reserve_pages` (before the call; `Space::acquire`). a = (space name hash << 32) | pages.
+    PrReserve = 55,
+    /// `pr.clear_request` (before the call; `Space::not_acquiring`).
+    /// a = (hash << 32) | pages reserved, b = attempted_allocation_and_failed (0/1).
+    PrClearRequest = 56,
+    /// the `commit_pages` done inside a successful `get_new_pages` (derived: logged AFTER
+    /// `get_new_pages` returned, directly before `PrGetNewPages`, holding the space's
+    /// `acquire_lock`). a = (hash << 32) | reserved pages, b = actual pages.
+    PrCommit = 57,
+    /// `MonotonePageResource::reset_cursor` (`MarkCompactSpace::compact`; a = (hash << 32) |
+    /// reserved pages before) or `RegionPageResource::reset_cursor` (`CompressorSpace::
+    /// compact_region`; a = (hash << 32) | pages released in that region). Before the call.
+    /// b = new cursor (unaligned `to` address).
+    PrResetCursor = 58,
+    // ---- binding callbacks (logged by the harness, not by mmtk-core) ----
+    /// `stop_all_mutators` begin.
+    VmStopBegin = 64,
+    /// `stop_all_mutators` end (all mutators visited). a = number of mutators.
+    VmStopEnd = 65,
+    /// `scan_roots_in_mutator_thread`. a = mutator index.
+    VmScanMutator = 66,
+    /// `scan_vm_specific_roots`.
+    VmScanVmRoots = 67,
+    /// `resume_mutators`.
+    VmResume = 68,
+    /// `block_for_gc` entered. a = mutator index.
+    VmBlockEnter = 69,
+    /// `block_for_gc` left. a = mutator index.
+    VmBlockLeave = 70,
+    /// `out_of_memory`. a = mutator index, b = AllocationError (0 HeapOutOfMemory, 1 MmapOutOfMemory).
+    VmOom = 71,
+    /// `process_weak_refs` returned. a = returned bool, b = round number within this GC.
+    VmProcessWeak = 72,
+    /// `forward_weak_refs`.
+    VmForwardWeak = 73,
+    /// `enqueue_references`. a = n.
+    VmEnqueue = 74,
+    /// one enqueued reference. a = object id.
+    VmEnqueueRef = 75,
+    /// `spawn_gc_thread`. a = 0 worker | 1 other, b = ordinal.
+    VmSpawn = 76,
+    /// `ObjectModel::copy`. a = object id, b = CopySemantics index << 48 | new ref.
+    VmCopy = 77,
+    /// harness: a mutator op begins. a = op counter.
+    OpBegin = 78,
+    /// harness: a mutator op ends. a = op counter.
+    OpEnd = 79,
+    /// `post_forwarding` / `notify..`: a GC cycle starts as seen from the binding (first callback).
+    VmGcStart = 80,
+    /// `alloc` call (harness). a = mutator, b = size.
+    VmAllocCall = 81,
+    /// `alloc` returned (harness). a = mutator, b = address.
+    VmAllocRet = 82,
+    /// `ObjectModel::copy_to`. a = object id, b = destination ref.
+    VmCopyTo = 83,
+    /// `schedule_finalization` upcall / `vm_live_bytes`. free use.
+    VmMisc = 84,
+}
+
+/// Printable names, indexed by kind value (empty = unused).
+pub const KIND_NAMES: &[(u32, &str)] = &[
+    (1, "GcRequest"),
+    (2, "GcClearRequest"),
+    (3, "MonMakeRequest"),
+    (4, "MonRequested"),
+    (5, "MonPark"),
+    (6, "MonLastParked"),
+    (7, "MonWait"),
+    (8, "MonWake"),
+    (9, "MonUnpark"),
+    (10, "MonExit"),
+    (11, "MonAllExited"),
+    (12, "MonNotify"),
+    (13, "BqPush"),
+    (14, "BqPushAll"),
+    (15, "BucketOpen"),
+    (16, "BucketClose"),
+    (17, "BucketSetEnabled"),
+    (18, "BucketSetSentinel"),
+    (19, "BucketSchedSentinel"),
+    (20, "BucketPollOk"),
+    (21, "WorkerLocalPush"),
+    (22, "WorkerLocalPop"),
+    (23, "DesignatedPush"),
+    (24, "DesignatedPop"),
+    (25, "WorkerSteal"),
+    (26, "PacketStart"),
+    (27, "PacketEnd"),
+    (28, "WorkerRun"),
+    (29, "WorkerLeave"),
+    (30, "GcFinishedBegin"),
+    (31, "GcBeforeResume"),
+    (32, "GcFinishedEnd"),
+    (33, "Surrender"),
+    (34, "SurrenderDone"),
+    (35, "Respawn"),
+    (36, "InitialSpawn"),
+    (37, "LastParkedEnter"),
+    (38, "GoalStarted"),
+    (39, "GoalCompleted"),
+    (40, "MutatorsPaused"),
+    (41, "SchedSentinels"),
+    (42, "UpdateBuckets"),
+    (43, "StopRequest"),
+    (44, "BucketPollBatch"),
+    (50, "PrGetNewPages"),
+    (51, "PrGetNewPagesFail"),
+    (52, "PrReleasePages"),
+    (53, "PrReleaseBlock"),
+    (54, "PrReset"),
+    (55, "PrReserve"),
+    (56, "PrClearRequest"),
+    (57, "PrCommit"),
+    (58, "PrResetCursor"),
+    (64, "VmStopBegin"),
+    (65, "VmStopEnd"),
+    (66, "VmScanMutator"),
+    (67, "VmScanVmRoots"),
+    (68, "VmResume"),
+    (69, "VmBlockEnter"),
+    (70, "VmBlockLeave"),
+    (71, "VmOom"),
+    (72, "VmProcessWeak"),
+    (73, "VmForwardWeak"),
+    (74, "VmEnqueue"),
+    (75, "VmEnqueueRef"),
+    (76, "VmSpawn"),
+    (77, "VmCopy"),
+    (78, "OpBegin"),
+    (79, "OpEnd"),
+    (80, "VmGcStart"),
+    (81, "VmAllocCall"),
+    (82, "VmAllocRet"),
+    (83, "VmCopyTo"),
+    (84, "VmMisc"),
+];
+
+/// Name of a kind value (`"?"` if unknown).
+pub fn kind_name(k: u32) -> &'static str {
+    KIND_NAMES
+        .iter()
+        .find(|(v, _)| *v == k)
+        .map(|(_, n)| *n)
+        .unwrap_or("?")
+}
+
+// ---------------------------------------------------------------------------------------------
+// Event log
+// ---------------------------------------------------------------------------------------------
+
+/// One logged event.
+#[derive(Copy, Clone, Debug, Default, PartialEq, Eq)]
+pub struct Event {
+    /// global sequence number (dense, starts at 0 after `enable(true)` of a fresh process)
+    pub seq: usize,
+    /// logical thread id (see [`set_tid`])
+    pub tid: usize,
+    /// [`Kind`] value
+    pub kind: u32,
+    /// first operand
+    pub a: usize,
+    /// second operand
+    pub b: usize,
+}
+
+struct Cell5 {
+    // ready marker: seq + 1 once the other fields are written
+    ready: AtomicUsize,
+    tid: AtomicUsize,
+    kind: AtomicUsize,
+    a: AtomicUsize,
+    b: AtomicUsize,
+}
+
+const CHUNK_LOG: usize = 14;
+const CHUNK: usize = 1 << CHUNK_LOG; // events per chunk
+const MAX_CHUNKS: usize = 1 << 14; // 2^28 events max per process
+
+static ENABLED: AtomicBool = AtomicBool::new(false);
+static SEQ: AtomicUsize = AtomicUsize::new(0);
+static DRAINED: AtomicUsize = AtomicUsize::new(0);
+static DROPPED: AtomicUsize = AtomicUsize::new(0);
+#[allow(clippy::declare_interior_mutable_const)]
+const NULL_CHUNK: AtomicPtr<Cell5> = AtomicPtr::new(std::ptr::null_mut());
+static CHUNKS: [AtomicPtr<Cell5>; MAX_CHUNKS] = [NULL_CHUNK; MAX_CHUNKS];
+static NEXT_TID: AtomicUsize = AtomicUsize::new(1000);
+
+thread_local! {
+    static TID: Cell<usize> = const { Cell::new(usize::MAX) };
+    static PUSH_STAGE: Cell<usize> = const { Cell::new(0xff) };
+    static YP_STATE: Cell<u64> = const { Cell::new(0) };
+}
+
+/// Set the logical thread id of the calling thread (harness: driver = 0, GC worker = 100 + ordinal).
+pub fn set_tid(t: usize) {
+    TID.with(|c| c.set(t));
+}
+
+/// The logical thread id of the calling thread (assigned from 1000 upwards if never set).
+pub fn tid() -> usize {
+    TID.with(|c| {
+        let v = c.get();
+        if v != usize::MAX {
+            v
+        } else {
+            let n = NEXT_TID.fetch_add(1, Ordering::Relaxed);
+            c.set(n);
+            n
+        }
+    })
+}
+
+/// Switch the log on or off.
+pub fn enable(on: bool) {
+    ENABLED.store(on, Ordering::SeqCst);
+}
+
+/// Is the log on?
+pub fn enabled() -> bool {
+    ENABLED.load(Ordering::Relaxed)
+}
+
+fn chunk_for(idx: usize) -> *mut Cell5 {
+    let ci = idx >> CHUNK_LOG;
+    if ci >= MAX_CHUNKS {
+        return std::ptr::null_mut();
+    }
+    let p = CHUNKS[ci].load(Ordering::Acquire);
+    if !p.is_null() {
+        return p;
+    }
+    // allocate zeroed chunk and try to install it
+    let layout = std::alloc::Layout::array::<Cell5>(CHUNK).unwrap();
+    let fresh = unsafe { std::alloc::alloc_zeroed(layout) } as *mut Cell5;
+    if fresh.is_null() {
+        return fresh;
+    }
+    match CHUNKS[ci].compare_exchange(
+        std::ptr::null_mut(),
+        fresh,
+        Ordering::AcqRel,
+        Ordering::Acquire,
+    ) {
+        Ok(_) => fresh,
+        Err(other) => {
+            unsafe { std::alloc::dealloc(fresh as *mut u8, layout) };
+            other
+        }
+    }
+}
+
+/// Append one event (no-op when the log is off).
+pub fn ev(kind: Kind, a: usize, b: usize) {
+    if !ENABLED.load(Ordering::Relaxed) {
+        return;
+    }
+    ev_raw(kind as u32, a, b)
+}
+
+/// Append one event with a raw kind value.
+pub fn ev_raw(kind: u32, a: usize, b: usize) {
+    if !ENABLED.load(Ordering::Relaxed) {
+        return;
+    }
+    let t = tid();
+    let i = SEQ.fetch_add(1, Ordering::SeqCst);
+    let ch = chunk_for(i);
+    if ch.is_null() {
+        DROPPED.fetch_add(1, Ordering::Relaxed);
+        return;
+    }
+    let c = unsafe { &*ch.add(i & (CHUNK - 1)) };
+    c.tid.store(t, Ordering::Relaxed);
+    c.kind.store(kind as usize, Ordering::Relaxed);
+    c.a.store(a, Ordering::Relaxed);
+    c.b.store(b, Ordering::Relaxed);
+    c.ready.store(i + 1, Ordering::Release);
+}
+
+/// Number of events logged so far (the next sequence number).
+pub fn next_seq() -> usize {
+    SEQ.load(Ordering::SeqCst)
+}
+
+/// Number of events that could not be stored (log full).
+pub fn dropped() -> usize {
+    DROPPED.load(Ordering::Relaxed)
+}
+
+static DRAIN_LOCK: Mutex<()> = Mutex::new(());
+
+/// Return every event logged since the previous `drain` (in sequence order) and free the storage
+/// of fully drained chunks. Waits for in-flight writers of already-numbered events.
+pub fn drain() -> Vec<Event> {
+    let _g = DRAIN_LOCK.lock().unwrap();
+    let end = SEQ.load(Ordering::SeqCst);
+    let start = DRAINED.load(Ordering::SeqCst);
+    let mut out = Vec::with_capacity(end - start);
+    for i in start..end {
+        let ci = i >> CHUNK_LOG;
+        if ci >= MAX_CHUNKS {
+            break;
+        }
+        let ch = loop {
+            let p = CHUNKS[ci].load(Ordering::Acquire);
+            if !p.is_null() {
+                break p;
+            }
+            std::thread::yield_now();
+        };
+        let c = unsafe { &*ch.add(i & (CHUNK - 1)) };
+        while c.ready.load(Ordering::Acquire) != i + 1 {
+            std::thread::yield_now();
+        }
+        out.push(Event {
+            seq: i,
+            tid: c.tid.load(Ordering::Relaxed),
+            kind: c.kind.load(Ordering::Relaxed) as u32,
+            a: c.a.load(Ordering::Relaxed),
+            b: c.b.load(Ordering::Relaxed),
+        });
+        // last entry of a chunk: every writer into it has finished (all ready) -> free it
+        if (i & (CHUNK - 1)) == CHUNK - 1 {
+            let layout = std::alloc::Layout::array::<Cell5>(CHUNK).unwrap();
+            let p = CHUNKS[ci].swap(std::ptr::null_mut(), Ordering::AcqRel);
+            if !p.is_null() {
+                unsafe { std::alloc::dealloc(p as *mut u8, layout) };
+            }
+        }
+    }
+    DRAINED.store(end, Ordering::SeqCst);
+    out
+}
+
+// ---------------------------------------------------------------------------------------------
+// Packet identity helpers
+// ---------------------------------------------------------------------------------------------
+
+/// 32-bit FNV-1a.
+pub fn fnv32(s: &str) -> u32 {
+    let mut h: u32 = 0x811c9dc5;
+    for b in s.as_bytes() {
+        h ^= *b as u32;
+        h = h.wrapping_mul(0x01000193);
+    }
+    h
+}
+
+static TYPE_NAMES: Mutex<Vec<(u32, &'static str)>> = Mutex::new(Vec::new());
+
+/// Hash a packet type name and remember the name (only while the log is enabled).
+pub fn type_hash(name: &'static str) -> u32 {
+    let h = fnv32(name);
+    if let Ok(mut t) = TYPE_NAMES.lock() {
+        if !t.iter().any(|(x, _)| *x == h) {
+            t.push((h, name));
+        }
+    }
+    h
+}
+
+/// All `(hash, type name)` pairs seen so far.
+pub fn packet_type_names() -> Vec<(u32, &'static str)> {
+    TYPE_NAMES.lock().unwrap().clone()
+}
+
+/// `tag` operand: `(type_hash << 8) | stage`.
+pub fn tag(name: &'static str, stage: usize) -> usize {
+    if !enabled() {
+        return 0;
+    }
+    ((type_hash(name) as usize) << 8) | (stage & 0xff)
+}
+
+/// Stable id of a boxed packet: the address of its data.
+pub fn pid<T: ?Sized>(p: &T) -> usize {
+    p as *const T as *const () as usize
+}
+
+/// Remember the stage the calling thread is about to push to (read by `BucketQueue::push`).
+pub fn set_push_stage(stage: usize) {
+    PUSH_STAGE.with(|c| c.set(stage));
+}
+
+/// The stage set by [`set_push_stage`] (0xff if none).
+pub fn push_stage() -> usize {
+    PUSH_STAGE.with(|c| c.get())
+}
+
+/// Hash of a space name, placed in the upper 32 bits of page-resource events.
+pub fn space_tag(name: &str, pages: usize) -> usize {
+    ((fnv32(name) as usize) << 32) | (pages & 0xffff_ffff)
+}
+
+// ---------------------------------------------------------------------------------------------
+// Yield points
+// ---------------------------------------------------------------------------------------------
+
+static YP_SEED: AtomicU64 = AtomicU64::new(0);
+static YP_HITS: AtomicUsize = AtomicUsize::new(0);
+
+/// Yield-point sites.
+#[repr(usize)]
+#[derive(Copy, Clone, Debug)]
+pub enum Site {
+    /// `attempt_to_forward`: between the load and the CAS
+    AttemptToForward = 1,
+    /// `MarkState::test_and_mark`: between the load and the CAS
+    TestAndMark = 2,
+    /// `ImmixSpace::attempt_mark`: between the load and the CAS
+    ImmixAttemptMark = 3,
+    /// `ObjectBarrier::log_object`
+    LogObject = 4,
+    /// LOS `test_and_mark`
+    LosTestAndMark = 5,
+    /// `forward_object`: before the final FORWARDED store (both branches: the combined
+    /// pointer+bits store, and between `write_forwarding_pointer` and the bits store)
+    ForwardObjectBeforeStore = 6,
+    /// `spin_and_get_forwarded_object`: inside the spin loop
+    SpinForwarded = 7,
+    /// `BlockPool::push` between counter update and queue update
+    BlockPoolPush = 8,
+    /// `BlockPool::pop`: after the `len() == 0` check, and between each successful queue pop and
+    /// the `count.fetch_sub` (three places)
+    BlockPoolPop = 9,
+    /// `park_and_wait` before taking the mutex
+    ParkBeforeLock = 10,
+    /// SATB barrier: `SATBBarrierSemantics::object_reference_write_slow` between reading the
+    /// fields (`object_probable_write_slow`) and clearing the unlog bit (`log_object`); also
+    /// `SATBBarrier::object_reference_write_pre` between the unlog-bit check and the slow path
+    SatbBarrier = 11,
+    /// `WorkBucket::add`: between the push and the notify
+    BucketAddBeforeNotify = 12,
+}
+
+/// Arm (seed != 0) or disarm (seed == 0) the yield points.
+pub fn arm_yield(seed: u64) {
+    YP_SEED.store(seed, Ordering::SeqCst);
+}
+
+/// Number of yield points hit while armed.
+pub fn yield_hits() -> usize {
+    YP_HITS.load(Ordering::Relaxed)
+}
+
+/// A yield point: no-op unless armed; then yields / spins a seeded number of times.
+pub fn yp(site: Site) {
+    let seed = YP_SEED.load(Ordering::Relaxed);
+    if seed == 0 {
+        return;
+    }
+    YP_HITS.fetch_add(1, Ordering::Relaxed);
+    let r = YP_STATE.with(|c| {
+        let mut x = c.get();
+        if x == 0 {
+            x = seed ^ ((tid() as u64 + 1).wrapping_mul(0x9E37_79B9_7F4A_7C15)) | 1;
+        }
+        x ^= x << 13;
+        x ^= x >> 7;
+        x ^= x << 17;
+        c.set(x);
+        x.wrapping_add(site as u64)
+    });
+    match r % 8 {
+        0..=3 => {}
+        4 | 5 => std::thread::yield_now(),
+        6 => {
+            for _ in 0..(r >> 8) % 512 {
+                std::hint::spin_loop();
+            }
+        }
+        _ => {
+            for _ in 0..(r >> 8) % 8 {
+                std::thread::yield_now();
+            }
+        }
+    }
+}
+
+// ---------------------------------------------------------------------------------------------
+// Accessors (crate-private state) — see the section below, added by the harness author
+// ---------------------------------------------------------------------------------------------
+
+/// Accessors to crate-private state (spaces, SFT/VM map lookups, allocator mapping, Immix tables).
+pub mod acc;
